@@ -26,6 +26,10 @@ def check_qr(case, rec):
     m, n = A.shape
     A0 = A.copy(); q0c = q0.copy(); q1c = q1.copy()
     Q, R, qi = ptn.qr(A, q0, q1)
+    # the factors are judged after the library has been used again (same and different charge layout): results must not live
+    # in storage that later calls reuse
+    ptn.qr(A[::-1, ::-1].copy(), q0[::-1].copy(), q1[::-1].copy())
+    ptn.qr(block_matrix(np.array([0, 1]), np.array([1, 0, 1]), 7, 'real'), np.array([0, 1]), np.array([1, 0, 1]))
     require(np.array_equal(A, A0) and A.dtype == A0.dtype, 'qr modified its input matrix')
     require(np.array_equal(q0, q0c) and np.array_equal(q1, q1c), 'qr modified its charge arguments')
     qi = np.asarray(qi)
